@@ -68,6 +68,15 @@ def run(ctx, rep):
     c04.decode(ctx, rep)
     # text up to the field width must come back unchanged: the shared text writer keeps the encoded text up to the field's width
     # and appends zero bytes only (C11's R11.3: exact width / content on the writers' path tables)
+    # vehicle identifiers travel in NPL / SLC / RES ...: the hand-written reader must be the inverse of the writer for every id
+    # the writer can produce (C13's tables: reader evaluated over the four-byte domain, writer / name tables)
+    from props import c13
+    before = len(rep.instances)
+    keep_expl, keep_ass = rep.explanation, list(rep.assumptions)
+    c13.run(ctx, rep)
+    rep.explanation, rep.assumptions = keep_expl, keep_ass
+    rep.instances[before:] = [i for i in rep.instances[before:] if i["rule"] in ("R13.0", "R13.1", "R13.2")]
+    rep.floors.pop("R13.3", None)
     from props import c11
     before = len(rep.instances)
     c11.length_domain(ctx, rep)
